@@ -211,6 +211,10 @@ def consequence(e, pbf, counts, out):
         out.append((f"nominal_instance_cannot_be_parsed|{label}|pbf={int(pbf)}|{type(ex).__name__}", str(ex)))
         return
     payload = frame[6:-2]
+    # two payload fields are never exposed as one and the same mutable object
+    lists = [(k, v) for k, v in msg.__dict__.items() if isinstance(v, (list, bytearray, dict))]
+    if len({id(v) for _, v in lists}) < len(lists):
+        out.append((f"two_fields_share_one_mutable_value|{label}|pbf={int(pbf)}", str([k for k, _ in lists])[:120]))
     # a SET / POLL definition is also usable through the documented auto-detecting mode (msgmode=SETPOLL): the nominal
     # instance must come back in its own mode (the cases the SETPOLL heuristic is known to mis-resolve are C17's findings)
     if e.mode in (SET, POLL) and (label, "0" if not payload else ("1-2" if len(payload) <= 2 else "n")) not in c17_known():
@@ -426,7 +430,7 @@ def eval_block(block, acc):
 def run_tier(tier, t0):
     q = tier == "quick"
     ents = C.entries()
-    counts = (1,) if q else (0, 1, 2)
+    counts = (1, 2) if q else (0, 1, 2, 3)
     idx = list(range(len(ents)))
     blocks = [("entries", idx[i::32], counts) for i in range(32)] + [("tables",), ("vargroups",), ("after_failures",)]
     acc = engine.sweep(blocks, eval_block)
